@@ -160,6 +160,20 @@ func genC03Cases(e *Env) []xferCase {
 			add(c)
 		}
 	}
+	// (c1) the same histories over files whose chunk count sits at and around
+	// the byte boundaries of the chunk bitmap
+	for _, h := range []string{"partial", "complete", "partial+late-report", "leftover-samecs", "leftover-samecount", "leftover-othercount"} {
+		for _, n := range []int{7, 8, 9, 16, 24, 64} {
+			for k := 0; k < e.Pick(2, 5); k++ {
+				c := xferCase{Shape: fmt.Sprintf("chunks:%d", n), Names: "plain", TSeed: r.U64(), History: h}
+				c.Cfg.Streams, c.Cfg.Resume = 1+r.Intn(4), true
+				c.Cfg.Conns = 1 + r.Intn(2)
+				c.Cfg.ChunkSize = []uint32{16, 64, 1000}[r.Intn(3)]
+				c.Cfg.NoRootDir, c.Cfg.ScanPaths = true, true
+				add(c)
+			}
+		}
+	}
 	// (d) random beyond the grid
 	for k := 0; k < e.Pick(500, 1500); k++ {
 		c := xferCase{Shape: []string{"onefile", "manysmall", "nested", "fewchunks", "boundary", "zerolen"}[r.Intn(6)], Names: []string{"plain", "unicode", "dotdash", "backslash", "control", "long255"}[r.Intn(6)], TSeed: r.U64()}
@@ -198,6 +212,21 @@ func gridTree(c xferCase) vk.Tree {
 }
 
 func treeForCase(c xferCase) vk.Tree {
+	if strings.HasPrefix(c.Shape, "chunks:") {
+		// three files of exactly n chunks (one of them with a partial last chunk)
+		var n int
+		fmt.Sscanf(c.Shape, "chunks:%d", &n)
+		t := vk.Tree{Seed: c.TSeed, Shape: c.Shape, Names: "plain"}
+		cs := int64(c.Cfg.ChunkSize)
+		for i := 0; i < 3; i++ {
+			size := int64(n) * cs
+			if i == 1 {
+				size -= cs / 2
+			}
+			t.Entries = append(t.Entries, vk.Entry{Rel: fmt.Sprintf("n%d.bin", i), Size: size})
+		}
+		return t
+	}
 	if len(c.Shape) > 5 && c.Shape[:5] == "grid:" {
 		return gridTree(c)
 	}
